@@ -86,11 +86,34 @@ Case(e) ==
          ELSE TRUE)
      /\ nviol' = nviol + Cardinality(vs)
 
+(***************************************************************************)
+(* C05 at the window operators (record ev = "c05": a multi-iteration case  *)
+(* with `solo` = the real outputs of a fresh instance on each iteration's  *)
+(* input alone).  Reported with prop "C05": output_after_restart,          *)
+(* carry_over (metamorphic), and carry_over for the WindowProps verdicts   *)
+(* that say a result mixes iterations (cause = that verdict's kind).       *)
+(* Losses (F3) and timestamps (F5) are no carry-over and not reported.     *)
+(***************************************************************************)
+MixesIterations(v) ==
+  \/ v.cause \in {"other_iteration", "carried_over_iteration", "after_restart"}
+Case05(e) ==
+  LET path == IF "path" \in DOMAIN e THEN e.path ELSE "direct"
+      mix  == {V("carry_over", v.kind, v.key, v.iter, v.step, v.v) :
+                 v \in {v \in Judge(e.kind, e.p, e.input, e.out) : MixesIterations(v)}}
+      vs   == AfterRestartViol(e.input, e.out) \cup CarryOverViol(e.input, e.out, e.solo) \cup mix
+  IN /\ \A v \in vs :
+          PrintT(<<"VIOL", ToJson([prop |-> "C05", kind |-> v.kind, cause |-> v.cause,
+                                   window |-> e.kind, path |-> path, job |-> e.id, index |-> l,
+                                   key |-> v.key, iter |-> v.iter, step |-> v.step, v |-> v.v,
+                                   extra |-> [p |-> e.p, input |-> e.input, out |-> e.out, solo |-> e.solo]])>>)
+     /\ nviol' = nviol + Cardinality(vs)
+
 Step ==
   /\ l <= Len(Rec)
   /\ l' = l + 1
   /\ LET e == Rec[l] IN
        CASE e.ev = "case" -> Case(e)
+         [] e.ev = "c05"  -> Case05(e)
          [] OTHER         -> UNCHANGED nviol
 
 Spec == Init /\ [][Step]_vars
